@@ -219,7 +219,65 @@ func (f *FnEnc) assume(t Term) {
 	if t.S == "true" {
 		return
 	}
+	if strings.Contains(t.S, "(forall ") || strings.Contains(t.S, "(exists ") {
+		// Quantified assumptions are asserted as top-level implications (positive polarity only):
+		// a quantifier buried in the definition of a reach variable would have to be handled in
+		// both polarities by the solver, which makes proofs unstable.
+		var plain []Term
+		for _, c := range splitConj(t.S) {
+			if strings.Contains(c, "(forall ") || strings.Contains(c, "(exists ") {
+				f.e.asserts = append(f.e.asserts, tImp(f.reach, Term{c, SBool}).S)
+			} else {
+				plain = append(plain, Term{c, SBool})
+			}
+		}
+		if len(plain) > 0 {
+			f.reach = f.e.defineAlways(f.pfx+".reach", tAnd(append([]Term{f.reach}, plain...)...))
+		}
+		return
+	}
 	f.reach = f.e.defineAlways(f.pfx+".reach", tAnd(f.reach, t))
+}
+
+// splitConj splits a top-level (and ...) s-expression into its conjuncts.
+func splitConj(s string) []string {
+	s = strings.TrimSpace(s)
+	if !strings.HasPrefix(s, "(and ") {
+		return []string{s}
+	}
+	body := s[5 : len(s)-1]
+	var out []string
+	depth, start := 0, 0
+	quoted := false
+	for i := 0; i < len(body); i++ {
+		switch body[i] {
+		case '|':
+			quoted = !quoted
+		case '(':
+			if !quoted {
+				depth++
+			}
+		case ')':
+			if !quoted {
+				depth--
+			}
+		case ' ':
+			if depth == 0 && !quoted {
+				if i > start {
+					out = append(out, body[start:i])
+				}
+				start = i + 1
+			}
+		}
+	}
+	if start < len(body) {
+		out = append(out, body[start:])
+	}
+	var res []string
+	for _, c := range out {
+		res = append(res, splitConj(c)...)
+	}
+	return res
 }
 
 func (f *FnEnc) setTaint(why string) {
